@@ -253,10 +253,155 @@ def run(ctx):
                detail={"fields": [n for n, _ in flds], "not_encoded": missing})
 
 
+# ---- order tables of the length-limit checks ---------------------------------------------------------------------
+# The limit checks are decided as order tables (engine.orderlogic.decide_table): every branch condition must be an order
+# comparison of the quantities.  A membership test in a std range *is* a conjunction of such comparisons, whatever the
+# spelling of the range, so it is rewritten into them before the table is decided.
+
+_INT_TYPES = {"u8", "u16", "u32", "u64", "u128", "usize", "i8", "i16", "i32", "i64", "i128", "isize"}
+
+
+def range_membership(t):
+    """The order comparisons a std range membership test stands for.  `r.contains(&x)` with `r` a range built on the
+    spot over an integer type is, by std's definition of `contains` (start bound ≤ x, x </≤ end bound):
+        lo..=hi  → lo ≤ x ∧ x ≤ hi        lo..hi → lo ≤ x ∧ x < hi
+        lo..     → lo ≤ x                 ..hi   → x < hi                ..=hi → x ≤ hi
+    -> [orderlogic cmp atom, …] (their conjunction is the test) or None when `t` is not such a test.  Only a range that
+    is constructed in the very expression is read (a RangeInclusive that has been iterated may be exhausted, and then
+    contains nothing)."""
+    t = strip_deep(t)
+    if t[0] != "call" or len(t) < 4 or not isinstance(t[3], dict) or len(t[2]) != 2:
+        return None
+    info = t[3]
+    if info.get("name") != "contains" or info.get("krate") not in ("core", "std") or \
+            not re.match(r"^(std|core)::ops::(range::)?Range(Inclusive|From|To|ToInclusive)?::<", info.get("res") or ""):
+        return None
+    # integers only: the table is decided on a total order (floats are PartialOrd but not totally ordered)
+    if not info.get("ga") or any(g not in _INT_TYPES for g in info["ga"]):
+        return None
+    rg, x = strip_deep(t[2][0]), strip_deep(t[2][1])
+    kind = re.match(r"^(?:std|core)::ops::(?:range::)?(Range\w*)::<", info["res"]).group(1)
+    lo = hi = None
+    if kind == "RangeInclusive":
+        # `lo..=hi` is spelled RangeInclusive::new(lo, hi) by the compiler (its fields are private)
+        ri = rg[3] if rg[0] == "call" and len(rg) > 3 and isinstance(rg[3], dict) else {}
+        if not (ri.get("name") == "new" and ri.get("krate") in ("core", "std") and len(rg[2]) == 2 and
+                re.match(r"^(std|core)::ops::(range::)?RangeInclusive::<", ri.get("res") or "")):
+            return None
+        lo, hi, upper = strip_deep(rg[2][0]), strip_deep(rg[2][1]), "<="
+    else:
+        # the other ranges are plain struct literals {start, end}
+        if rg[0] != "agg" or not re.match(r"^(std|core)::ops::(range::)?%s$" % kind, str(rg[1]).split("<")[0]):
+            return None
+        fs = {str(k_): strip_deep(v_) for k_, v_ in rg[3]}
+        want = {"Range": {"start", "end"}, "RangeFrom": {"start"}, "RangeTo": {"end"}, "RangeToInclusive": {"end"}}[kind]
+        if set(fs) != want:
+            return None
+        lo, hi, upper = fs.get("start"), fs.get("end"), ("<=" if kind == "RangeToInclusive" else "<")
+    out = []
+    if lo is not None:
+        out.append(("cmp", "<=", lo, x))
+    if hi is not None:
+        out.append(("cmp", upper, x, hi))
+    return out or None
+
+
+def paths_with_range_tests_expanded(b, sym):
+    """orderlogic.paths(b) with every branch on a range membership test replaced by branches on the comparisons it
+    stands for: test true → all of them hold; test false → the first i-1 hold and the i-th fails, for each i (the
+    disjoint cases of a failed conjunction).  -> (paths, number of branch conditions rewritten)."""
+    from engine import orderlogic as OL
+    ps = OL.paths(b, sym)
+    # orderlogic keeps only the text of a condition it cannot read; the terms behind the texts are the discriminants
+    # of the body's boolean switches
+    tests = {}
+    for blk in b.blocks:
+        t = blk["term"]
+        if blk.get("cleanup") or t["t"] != "switch" or t.get("dty") != "bool":
+            continue
+        d = strip_deep(sym.operand(t["discr"]))
+        while d[0] == "un" and d[1] == "Not":
+            d = strip_deep(d[2])
+        cmps = range_membership(d)
+        if cmps:
+            tests[render(d)] = cmps
+    if not tests:
+        return ps, 0
+    out, n = [], 0
+    for conds, ret in ps:
+        alts = [[]]
+        for a, truth in conds:
+            while a[0] == "not":
+                a, truth = a[1], not truth
+            cmps = tests.get(a[1]) if a[0] == "opaque" else None
+            if cmps is None:
+                alts = [pre + [(a, truth)] for pre in alts]
+                continue
+            n += 1
+            if truth:
+                ext = [[(c, True) for c in cmps]]
+            else:
+                ext = [[(c, True) for c in cmps[:i]] + [(cmps[i], False)] for i in range(len(cmps))]
+            alts = [pre + e for pre in alts for e in ext]
+        out.extend((cs, ret) for cs in alts)
+    return out, n
+
+
+def decide_limit_table(b, names, spec, label, select=None):
+    """orderlogic.decide_table for an accept/reject function of length limits; when the function as written tests
+    membership in a range (which decide_table does not read) the same table is decided on the comparisons the test
+    stands for.  What is demanded does not change: on every weak ordering of the quantities the paths whose conditions
+    hold all carry the specification's label, and there is at least one."""
+    import itertools
+    from engine import orderlogic as OL
+    sym = K.sym_of(b)
+    ok, det = OL.decide_table(b, sym, names, spec, label, select=select)
+    if ok:
+        return ok, det
+    try:
+        ps, n_rewritten = paths_with_range_tests_expanded(b, sym)
+    except OL.NotComparisonOnly:
+        return ok, det
+    if not n_rewritten:
+        return ok, det
+    # from here: orderlogic.decide_table on the rewritten path set
+    sel = []
+    for conds, ret in ps:
+        if any(a[0] == "opaque" for a, _ in conds):
+            return False, "branches on something that is neither a comparison nor a variant: %s" % \
+                [a[1] for a, _ in conds if a[0] == "opaque"][:2]
+        if select is None or select([(a[1], a[2]) for a, _ in conds if a[0] == "switch"]):
+            lab = label(render(ret) if ret is not None else "")
+            if lab is not None:
+                sel.append(([(a, t) for a, t in conds if a[0] != "switch"], lab))
+    if not sel:
+        return False, "no path selected"
+    qmap = {}
+    for q in OL.leaves([(c, None) for c, _ in sel]):
+        for rx, nm in names:
+            if re.search(rx, q):
+                qmap[q] = nm
+                break
+        else:
+            return False, "compares quantities outside the specification: %s" % [q]
+    snames = sorted({nm for _, nm in names})
+    bad, n = [], 0
+    for vals in itertools.product(range(max(len(snames), 2)), repeat=len(snames)):
+        senv = dict(zip(snames, vals))
+        env = {q: senv[nm] for q, nm in qmap.items()}
+        n += 1
+        labs = {lab for conds, lab in sel if all(OL.ev(a, env) == t for a, t in conds)}
+        want = spec(senv)
+        if labs != {want}:
+            bad.append({"ordering": senv, "function": sorted(labs), "specification": want})
+            if len(bad) >= 4:
+                break
+    return not bad, {"orderings": n, "paths": len(sel), "range_tests_rewritten": n_rewritten, "counterexamples": bad}
+
+
 def check_roa_limits(ctx, f):
     """The capture-time parser of a ROA address accepts exactly the (prefix length, max length) pairs that are legal for
     the family — in particular every pair a builder can legitimately produce (max length == family maximum included)."""
-    from engine import orderlogic as OL
     fn = "repository::roa::RoaIpAddress::skip_opt_in"
     b = f.body(fn)
     if b is None:
@@ -281,7 +426,7 @@ def check_roa_limits(ctx, f):
          "with maxLength m: accepted iff prefix length ≤ m ≤ family maximum"),
     ]
     for key, sel, spec, text in rows:
-        ok, det = OL.decide_table(b, K.sym_of(b), names, spec, label, select=sel)
+        ok, det = decide_limit_table(b, names, spec, label, select=sel)
         ctx.ob("R-REG", "RoaIpAddress::skip_opt_in:%s" % key, ok, "ROA address %s (on every ordering of the three numbers)" % text,
                where=b.loc, detail=det)
 
@@ -289,7 +434,6 @@ def check_roa_limits(ctx, f):
 def check_prefix_family_limits(ctx, f):
     """The certificate IP-resource decoders accept a prefix exactly when its length is at most the family maximum
     (a /32 or /128 host prefix, which builders produce, included)."""
-    from engine import orderlogic as OL
     names = [(r"^Prefix::addr_len\(", "p"), (r"^AddressFamily::max_addr_len\(", "f")]
 
     def label(r):
@@ -308,7 +452,7 @@ def check_prefix_family_limits(ctx, f):
             # feature "compat": check_len clamps the length to the family maximum instead of rejecting (documented)
             ctx.note("config %s: AddressRange::check_len clamps (feature compat) — family-limit table not applicable" % ctx.cfg)
             continue
-        ok, det = OL.decide_table(b, K.sym_of(b), names, lambda e: "accept" if e["p"] <= e["f"] else "reject", label)
+        ok, det = decide_limit_table(b, names, lambda e: "accept" if e["p"] <= e["f"] else "reject", label)
         ctx.ob("R-REG", "%s:family-limit" % short(fn), ok,
                "%s accepts a prefix iff its length ≤ the family maximum (on every ordering of the two numbers)" % short(fn),
                where=b.loc, detail=det)
